@@ -357,6 +357,12 @@ def mon_c09(w, F, vd):
         if ri.fire and ri.fire[3] == "ok":
             if not comps or comps[0][0] > ri.fire[0]:
                 vd.bad("C09.ended_without_pubcomp", "publish #%d qos 2 completed without PUBCOMP" % ri.rid)
+        if ri.fire is not None:
+            for t in ri.rel:
+                if t.ei > ri.fire[0]:
+                    vd.bad("C09.pubrel_after_end", "publish #%d: PUBREL id %d written %.3fs after the exchange ended (%s)" % (
+                        ri.rid, t.f["id"], t.t - ri.fire[2], _trigger(t.ctx)))
+                    break
         if recs and not ri.rel:
             vd.bad("C09.no_pubrel_after_pubrec", "publish #%d: PUBREC delivered but no PUBREL written" % ri.rid)
         # classification: an expiry or a loss between PUBREC and PUBCOMP, or a duplicated PUBREC
@@ -515,6 +521,13 @@ def mon_c18(w, F, vd):
     for conn in w.conns:
         if len(set(fr[1] for fr in conn.frames)) >= 5:
             nontriv = True
+            vd.label("c18:five_packet_types")
+    if any(e.k == "react" for e in w.log):
+        vd.label("c18:api_call_from_callback")
+    if any(e.k == "rx" and e.d["desc"][0] == "SEGMENT" for e in w.log):
+        vd.label("c18:several_packets_in_one_segment")
+    if nontriv:
+        vd.label("c18:activity_in_closing_interval_or_5_types")
     vd.nontrivial = nontriv
 
 
@@ -624,6 +637,8 @@ def mon_c06(w, F, vd):
                 if fr[0] in ("PUBACK", "PUBREC", "PUBCOMP"):
                     vd.bad("C06.unprompted_ack", "%s id %s written in context %r" % (fr[0], fr[1].get("id"), e.ctx[:2] if e.ctx else None))
     vd.nontrivial = nontriv
+    if nontriv:
+        vd.label("c06:repeat_or_unknown_or_interleaved_or_reconnect")
 
 
 def _cmp_delivery(vd, cb, exp, dups):
@@ -765,6 +780,14 @@ def mon_c07(w, F, vd):
                         at_loss[rid] = e.c
     for e in F.already_called():
         vd.bad("C07.fired_twice", "AlreadyCalledError in %s" % (e.d["where"],))
+    if any(e.d["desc"][0] in ("SUBACK", "UNSUBACK") and unsolicited(e) for e in F.rx):
+        vd.label("c07:foreign_or_duplicate_ack")
+        if any(e.d["desc"][-1] == 6 for e in F.rx if e.d["desc"][0] in ("SUBACK", "UNSUBACK")):
+            vd.label("c07:ack_with_other_kinds_id")
+    if at_loss or any(x.k == "fire" and x.d["kind"] in ("subscribe", "unsubscribe") and x.ctx and x.ctx[0] == "lose" for x in w.log):
+        vd.label("c07:loss_with_pending")
+    if any(len(ri.tx) > 1 for ri in F.reqs_of("subscribe") + F.reqs_of("unsubscribe")):
+        vd.label("c07:retransmitted")
     # a request whose connection has gone: failed, or sent again on the next connection -- and never pending for ever
     for rid, c in at_loss.items():
         ri = F.info[rid]
@@ -779,11 +802,12 @@ def mon_c07(w, F, vd):
     ops = w.ops_done
     if len(ops) >= 2 and ops[-1][0] == "idle" and ops[-2][0] == "settle":
         # the broker answered everything it was sent on the connection that is up at the end
+        settled = set(o[1] for o in ops[-3:-1] if o[0] == "settle")
         for ri in F.reqs_of("subscribe") + F.reqs_of("unsubscribe"):
             if ri.accepted and ri.fire is None:
                 cur = w.cur.get(ri.a)
                 if cur is not None and cur.phase == "connected" and cur.closed is None and not cur.lost \
-                        and ops[-2][1] == ri.a:
+                        and ri.a in settled:
                     vd.bad("C07.pending_forever", "%s #%d still pending after the broker answered everything" % (ri.kind, ri.rid))
     vd.nontrivial = nontriv
 
@@ -932,6 +956,11 @@ def mon_c04(w, F, vd):
                 vd.bad("C04.not_notified", "onDisconnection was set but not called within %.1fs of the loss" % (w.now() - e.t))
         elif got:
             vd.bad("C04.notified_unset", "onDisconnection called although no handler was set at the loss")
+    for e in w.log:
+        if e.k == "lost":
+            vd.label("c04:lost_while_%s" % e.d["phase"])
+        elif e.k == "rx" and e.d["desc"][0] == "CONNACK":
+            vd.label("c04:connack_%s" % ("0" if e.d["desc"][1] == 0 else "1-5" if e.d["desc"][1] <= 5 else "reserved"))
     for c, lst in notif.items():
         if not w.conns[c].lost:
             vd.bad("C04.notified_without_loss", "onDisconnection called on a connection that was not lost")
@@ -1109,6 +1138,13 @@ def mon_c08(w, F, vd):
                 n_unacked, len(se.d["pending"])))
             break
     #  2. the retry tail appended by the generator (op 'retrytail') records its own verdict
+    reps = {}
+    for p in pk:
+        if len(p.tx) > 1:
+            reps[p.kind] = max(reps.get(p.kind, 0), len(p.tx) - 1)
+    for k_, n_ in reps.items():
+        vd.label("c08:%s_repeats_%s" % (k_, "1" if n_ == 1 else "2-5" if n_ <= 5 else "6-20" if n_ <= 20 else "21+"))
+    vd.label("c08:v%d" % ver)
     for e in w.log:
         if e.k == "retrytail":
             for (kind, rid, seen, need) in e.d["short"]:
@@ -1169,12 +1205,13 @@ def mon_c13(w, F, vd):
                 notif_pending.append(e.t + 0.1)
             if any(True for _ in se_pending(F, e.step)):
                 nontriv = True
+        elif k == "cb" and e.d["name"] == "onDisconnection":
+            if notif_pending:
+                notif_pending.pop(0)          # delivered (events, not float comparisons, say when)
+        elif k == "fire" and e.d["kind"] == "connect" and e.ctx and e.ctx[0] == "timer":
+            connack_timers.pop(e.c, None)     # the CONNACK timeout has run
         elif k == "timers":
             now = e.t
-            notif_pending = [t for t in notif_pending if t > now + EPS]
-            for c in list(connack_timers):
-                if connack_timers[c] <= now + EPS:
-                    del connack_timers[c]
             ei = e.i
             n_out = 0
             n_ka = 0
@@ -1204,6 +1241,12 @@ def mon_c13(w, F, vd):
                 vd.bad("C13.stray_timer", "%d timers pending; justified: %d unacknowledged packets + %d notifications + %d CONNACK timers + %d keepalive" % (
                     len(e.d["pending"]), n_out, len(notif_pending), len(connack_timers), n_ka))
                 break
+    if any(e.k == "lost" for e in w.log):
+        vd.label("c13:loss")
+    if any(e.k == "react" for e in w.log):
+        vd.label("c13:api_call_from_callback")
+    if any(ri.fire is not None and w.now() - ri.fire[2] >= 1.0 for ri in F.info.values()):
+        vd.label("c13:settled_then_time_passes")
     # early resend by a second timer: two transmissions of one packet closer than C08 allows are
     # reported by C08.gap_too_short; here: a retransmission in a timer while another timer for the same
     # packet is still pending shows up as stray_timer above.
@@ -1299,6 +1342,14 @@ def mon_c15(w, F, vd):
         n_periods = len([p for p in pings if end_ei is None or p[0] < end_ei])
         if n_periods >= 3 or (resps and not all_in_time) or len(resps) > len(pings):
             nontriv = True
+        vd.label("c15:keepalive_%s" % (k if k in (1, 2, 3, 5, 7, 60, 65535) else "other"),
+                 "c15:periods_%s" % ("0" if n_periods == 0 else "1-2" if n_periods < 3 else "3-9" if n_periods < 10 else "10+"))
+        if pings and all_in_time:
+            vd.label("c15:all_answered_in_time")
+        if len(resps) > len(pings):
+            vd.label("c15:surplus_pingresp")
+        if aborts and aborts[0].ctx and aborts[0].ctx[0] == "timer":
+            vd.label("c15:aborted_by_timer")
     if len([c for c in w.conns if c.keepalive]) >= 2:
         nontriv = True
     vd.nontrivial = nontriv
@@ -1761,7 +1812,7 @@ def mon_c16(w, F, vd):
                 classes.append("hard")
         evs = _ctx_events(w, e)
         for x in evs:
-            if x.k == "close":
+            if x.k == "close" and not (x.ctx and x.ctx[0] == "api"):
                 vd.bad("C16.reaction", "input %s... answered with loseConnection (only abort is expected)" % data[:8].hex())
         pending_before = any(ri.accepted and (ri.fire is None or ri.fire[0] > e.i) and not (ri.kind == "publish" and ri.qos == 0)
                              for ri in F.info.values() if ri.req.step < e.step)
